@@ -394,10 +394,23 @@ pub fn check_c11(
             probes.push("midbody_disconnect");
         }
         if let (Some(e), false) = (&obs.parse_err, departs) {
-            v.push(Violation {
-                rule: "c11.bad_response_stream".into(),
-                detail: format!("conn {ci}: {:?}", e),
-            });
+            match truncated_at(obs) {
+                Some(k) => {
+                    let over = matches!(cp.reqs.get(k).map(|r| &r.expect), Some(Expect::Sink { limit, len, .. }) if len > limit);
+                    if over {
+                        v.push(Violation {
+                            rule: "c11.refusal_truncated_on_close".into(),
+                            detail: format!("conn {ci}: the refusal of oversize request {k} was cut short ({:?})", e),
+                        });
+                    } else {
+                        probes.push("response_truncated_on_close");
+                    }
+                }
+                None => v.push(Violation {
+                    rule: "c11.bad_response_stream".into(),
+                    detail: format!("conn {ci}: {:?}", e),
+                }),
+            }
         }
         let mut prior_oversize = false;
         for (k, rq) in cp.reqs.iter().enumerate() {
@@ -443,7 +456,7 @@ pub fn check_c11(
                     // After an oversize (or otherwise refused) request the
                     // server may close the connection; later pipelined
                     // requests then go unanswered.
-                    if prior_oversize || pipelined_follower(obs, k) || !owed_answer(out, cp, obs, k) {
+                    if prior_oversize || truncated_at(obs).is_some() || pipelined_follower(obs, k) || !owed_answer(out, cp, obs, k) {
                         continue;
                     }
                     v.push(Violation {
